@@ -581,3 +581,5 @@ HANDLERS["C14"] = _progsim_plus(["plain:stream-with-exact-size-hint", "plain:ada
                                 "One separate process (build without hooks): a stream with the default and one with an exact size_hint, polled to None through in_span: the span has the children of every poll including the last and covers the whole run.")
 HANDLERS["C18"] = _progsim_plus(["plain:stream-with-exact-size-hint"],
                                 "One separate process (build without hooks): the span of a stream with an exact size_hint lasts until the poll that returned None (duration bracketed by the sleeps inside and the wall time of the run).")
+HANDLERS["C05"] = _progsim_plus(["plain:property-closure-owning-a-guard"],
+                                "One separate process (build without hooks): a property closure that owns the guard of an unsampled scope nested in a sampled one: nothing attached inside the unsampled scope may be delivered, the sampled trace keeps exactly its own attachments.")
